@@ -445,6 +445,9 @@ def call_spec(ctx, cls: str, rule: str = 'R10.3') -> List[Ob]:
     fi = repo.func(f"pyspike.{cls}", f"{cls}.__call__")
     try:
         mp = MethodPaths(fi).run()
+        mp.results = [(expand_helper_calls(repo, fi, r[0]), r[1], r[2],
+                       [(k_, (rr[0], rr[1], expand_helper_calls(repo, fi, rr[2])) + tuple(rr[3:])) if rr[0] == 'store' and len(rr) >= 3 else (k_, rr)
+                        for k_, rr in r[3]]) + tuple(r[4:]) for r in mp.results]
     except (Inconclusive, C.CanonError) as e:
         return [inconclusive(rule, f"{fi.name}: paths enumerable", fi.loc(), str(e), construct=_fn(fi))]
     x = attr('self', 'x')
@@ -457,7 +460,9 @@ def call_spec(ctx, cls: str, rule: str = 'R10.3') -> List[Ob]:
         y1, y2 = attr('self', 'y1'), attr('self', 'y2')
 
         def piece(i):
-            return call('intermediate_value', sub_(x, C.sub(i, C.ONE)), sub_(x, i), sub_(y1, C.sub(i, C.ONE)), sub_(y2, C.sub(i, C.ONE)), t)
+            # linear interpolation over the piece [x[i-1], x[i]] at t, written out
+            x0, x1_, a_, b_ = sub_(x, C.sub(i, C.ONE)), sub_(x, i), sub_(y1, C.sub(i, C.ONE)), sub_(y2, C.sub(i, C.ONE))
+            return C.add(a_, C.div(C.mul(C.sub(b_, a_), C.sub(t, x0)), C.sub(x1_, x0)))
         first, lastv = sub_(y1, C.ZERO), sub_(y2, C.sub(ln(y2), C.ONE))
 
         def mid(i):
@@ -500,19 +505,30 @@ def call_spec(ctx, cls: str, rule: str = 'R10.3') -> List[Ob]:
         clamp_ok = len(st_ind) == 2 and st_ind[0][2] == C.ONE and st_ind[1][2] == C.sub(xlen, C.ONE)
         _req(obs, rule, fi, "sequence of times: indices 0 and len(x) (times on the edges) are clamped to the first / last piece",
              clamp_ok, str([(C.show(r[1]), C.show(r[2])) for r in st_ind]), 'seq-clamp', node)
-        # interior rule: value initialised with the piece rule at `ind`
-        indv = C.atom(('n', 'ind#2')) if False else None
+        # interior rule, read off the store into the result array (no local names involved): some store writes
+        # mid(X) where X is the clamped index array restricted by a mask
         vst = [r for k, r in stores if k != key_ind]
         mid_ok = False
-        xi = env.vals.get('xy_ind')
-        if vst and xi is not None:
-            mid_ok = any(r[2] == mid(C.to_poly(xi)) for r in vst)
+        X = None
+        ysrc = C.single_atom(y1 if pwl else y)
+        for r in vst:
+            if not C.is_poly(r[2]):
+                continue
+            for a_ in C.atoms_of(r[2]):
+                if a_[0] == 'sub' and a_[1] == ysrc and C.is_poly(a_[2]):
+                    for cand in (C.add(a_[2], C.ONE), C.add(a_[2], C.const(2))):
+                        if r[2] == mid(cand):
+                            mid_ok, X = True, cand
         _req(obs, rule, fi, "sequence of times: at interior breakpoints the value is the mean of the left and right limits (same expression as the single-time path)",
              mid_ok, str([C.show(r[2]) for r in vst]), 'seq-mid', node)
-        il = env.vals.get('ind_l')
+        mask = None
+        if X is not None:
+            sx = C.single_atom(X)
+            if sx is not None and sx[0] == 'sub' and C.is_poly(sx[2]):
+                mask = sx[2]
+        left_ok = mask is not None and C.single_atom(ind_l) in C.atoms_of(mask)
         _req(obs, rule, fi, "sequence of times: breakpoints are recognised by comparing searchsorted 'right' with searchsorted 'left'",
-             il is not None and il == ind_l, C.show(il) if il is not None else 'missing', 'seq-left', node)
-        mask = env.vals.get('ind_at_spike')
+             left_ok, C.show(mask) if mask is not None else 'missing', 'seq-left', node)
         if mask is not None:
             ms = C.show(mask)
             mask_ok = 'np.logical_and' in ms and '!= 0' in ms
@@ -520,8 +536,6 @@ def call_spec(ctx, cls: str, rule: str = 'R10.3') -> List[Ob]:
                  mask_ok and ' - 1 < 0' not in ms.replace('ind', ''), ms, 'seq-mask', node)
     else:
         obs.append(inconclusive(rule, f"{fi.name}: one sequence path found", fi.loc(), f"{len(seq)}", construct=f"{_fn(fi)}::seq"))
-    if pwl:
-        obs.extend(_intermediate_value_spec(repo, fi, rule))
     return obs
 
 
@@ -741,7 +755,67 @@ def add_value_rules(ctx, eng, rule: str = 'R09.5') -> List[Ob]:
 # ======================================================================================
 # DiscreteFunc.get_plottable_data: multiplicity-aware smoothing (R11.5)
 # ======================================================================================
+PLOTTABLE_DISCRETE_SPEC = """
+def get_plottable_data(self, k=0):
+    # multiplicity-aware smoothing of a discrete profile: every plotted value is the mean over (k+1) profiles' worth
+    # of unit contributions, taken from the entry itself and then from its right and left neighbours; the last
+    # neighbour on each side contributes only the missing fraction
+    if k > 0:
+        wanted = (k + 1) * int(self.mp[0])
+        out = np.zeros_like(self.y)
+        for i in range(len(out)):
+            if self.mp[i] >= wanted:
+                out[i] = self.y[i] / self.mp[i]
+                continue
+            acc = self.y[i]
+            right = self.mp[i]
+            j = i + 1
+            while j < len(out):
+                if right + self.mp[j] < wanted:
+                    acc += self.y[j]
+                    right += self.mp[j]
+                else:
+                    acc += self.y[j] * (wanted - right) / self.mp[j]
+                    right += (wanted - right)
+                    break
+                j += 1
+            left = self.mp[i]
+            j = i - 1
+            while j >= 0:
+                if left + self.mp[j] < wanted:
+                    acc += self.y[j]
+                    left += self.mp[j]
+                else:
+                    acc += self.y[j] * (wanted - left) / self.mp[j]
+                    left += (wanted - left)
+                    break
+                j -= 1
+            out[i] = acc / (left + right - self.mp[i])
+        return 1.0 * self.x, out
+    else:
+        return 1.0 * self.x, 1.0 * self.y / self.mp
+"""
+
+
 def plottable_discrete_spec(ctx, rule: str = 'R11.5') -> List[Ob]:
+    """First the whole method against the reference program (insensitive to spelling); the itemised table below is
+    consulted only when that comparison does not succeed, to say which entry of the table is off."""
+    from .rules_specprog import equal_to_spec
+    from .props import eng as _eng
+    fi = ctx.repo.func('pyspike.DiscreteFunc', 'DiscreteFunc.get_plottable_data')
+    first = equal_to_spec(_eng(ctx), fi, PLOTTABLE_DISCRETE_SPEC, rule,
+                          "equals the reference smoothing: window test k > 0, wanted multiplicity (k+1)*mp[0], own-contribution "
+                          "shortcut, right and left scans with a fractional last neighbour, normalisation by right + left - own",
+                          'smoothing')
+    if all(o.status == 'ok' for o in first):
+        return first
+    table = _plottable_discrete_table(ctx, rule)
+    if any(o.status == 'violation' for o in table):
+        return table
+    return first + [o for o in table if o.status == 'ok']
+
+
+def _plottable_discrete_table(ctx, rule: str = 'R11.5') -> List[Ob]:
     repo = ctx.repo
     obs: List[Ob] = []
     fi = repo.func('pyspike.DiscreteFunc', 'DiscreteFunc.get_plottable_data')
